@@ -116,6 +116,12 @@ theorem weight_no_witness (t : Tx) (h : TxWf t) (hw : t.hasWitness = false) :
   simp [Tx.serialize, hw]
   omega
 
+/-- `WitnessHash` falls back to `TxHash` without witness data: both hash the same bytes, so the
+    wtxid leaf of a witness-free transaction is its txid. -/
+theorem serialize_witness_free (t : Tx) (hw : t.hasWitness = false) :
+    t.serialize true = t.serialize false := by
+  simp [Tx.serialize, hw]
+
 example : TxWf ⟨1, [⟨List.replicate 32 0, 0, [], 0, []⟩], [], 0⟩ := by
   intro i hi; simp at hi; subst hi; simp
 
@@ -172,6 +178,16 @@ theorem sigOpCost_eq_spec (t : Tx) (pks : List Bytes) (hlen : pks.length = t.ins
     getSigOpCost t false (pks.map some) true true =
       some (txSigOpCost ((t.ins.zip pks).map (fun x => (x.1.script, x.1.witness, x.2))) (t.outs.map (·.pk))) :=
   Lemmas.sigOpCost_eq_spec t pks hlen hok houts
+
+example : Lemmas.SizesOk [((⟨List.replicate 32 1, 0, [0x51], 0xffffffff, [[0xac]]⟩ : TxIn), [0x00, 0x14])] := by
+  intro x hx
+  simp at hx
+  subst hx
+  refine ⟨by decide, by decide, ?_⟩
+  intro w hw
+  simp at hw
+  subst hw
+  decide
 
 /-- a coinbase pays only for its legacy sigops: 4 · legacy -/
 theorem sigOpCost_coinbase (t : Tx) (utxos : List Utxo) (b16 sw : Bool) :
